@@ -48,10 +48,14 @@ CHECKS = {
                 technique="bounded-exhaustive enumeration of strategy x topology x write shape x read shape x value on real proxies with a storing Redis stand-in",
                 text="Every combination of compression strategy {disabled, set_get_only, allow_all}, topology {owner proxy; non-owner proxy with active redirection, without and with UMFORWARD}, 11 write shapes (SET with/without EX/NX/PX XX, SETEX, PSETEX, SETNX, GETSET, MSET 1/3 pairs, MSETNX), value class (empty, 1 byte, all 256 byte values, RESP look-alike, incompressible, zeros, a zstd frame, OK, integer text) and read shape (GET, MGET with a missing key, GETSET) is executed; oracle: reads return the written bytes, the node stores a payload that zstd-decodes to the value with the original ttl, keys/options/non-string replies untouched, the 14 string-content commands refused and not forwarded under set_get_only, nothing altered under disabled.",
                 note="Trusted: the Redis stand-in; zstd crate for the decode check. Values are a finite class menu, not all byte strings."),
-    "C05": dict(engine="simnet", cat="model_checking", ref="3/C05",
-                technique="bounded-exhaustive enumeration of SETCLUSTER/SETREPL message sequences on a real proxy against a two-register reference model (sequential deliveries); concurrent deliveries: see level_note",
-                text="SEQUENTIAL PART: every sequence of length <= 3 (thorough 4) over 29 messages (both kinds x epoch 1..3 x force x two contents, wrong-host and compressed variants) is delivered to a fresh real ForwardHandler; after every message the reply (OK / OLD_EPOCH / ERR_NOT_MY_META), UMCTL GETEPOCH, two routing probes and UMCTL INFOREPL must equal a reference model (apply iff forced or strictly newer; wrong host changes nothing).",
-                note="Partial claim at this commit: the concurrent-delivery clause (several threads) is decided by the thrsched engine once its hooks exist; until then only sequential histories are covered. Trusted: reference model in c05.rs, Redis stand-in."),
+    "C05": dict(engine="simnet+thrsched", cat="model_checking", ref="3/C05",
+                technique="sequential: bounded-exhaustive enumeration of SETCLUSTER/SETREPL sequences on a real proxy against a two-register reference model; concurrent: preemption-bounded exhaustive DFS over schedules of real threads at cfg-guarded scheduling points in set_meta / update_replicators",
+                text="SEQUENTIAL: every sequence of length <= 3 (thorough 4) over 29 messages (both kinds x epoch 1..3 x force x two contents, wrong-host and compressed variants) on a fresh real ForwardHandler; after every message the reply, UMCTL GETEPOCH, two routing probes and UMCTL INFOREPL must equal the reference model. CONCURRENT: 2-3 writer threads with 1-2 messages each (same kind) plus an observer (get_epoch then routing) run under a cooperative scheduler; all schedules with <= 2 (thorough 3) preemptions at the atomic-level points; oracle: the installed state is that of the accepted message with the highest epoch, the newest message is accepted, every rejected message is stale w.r.t. an accepted one, the observer never sees routing older than the epoch it read.",
+                note="The concurrent oracle deliberately does not demand linearizability of the accept/reject replies: update_replicators fails fast on an epoch that is still being installed (by design), which is not a violation of the property as long as every rejected message is superseded by an accepted one. Trusted: reference model, scheduler (sched.rs), textual hook-coverage scan (a pass is refused when an access to the shared fields has no scheduling point); only SeqCst interleavings are explored (checked textually)."),
+    "C11": dict(engine="thrsched", cat="model_checking", ref="3/C11",
+                technique="preemption-bounded exhaustive DFS over schedules of real threads (senders, migration controller, replier) at cfg-guarded scheduling points before every shared-memory access of the blocking queue",
+                text="The real BlockingMap / TaskBlockingQueue / BlockingHandle / BiAtomicU32 run with harness inner and re-dispatch senders under a cooperative scheduler; scenarios: 1-2 senders (1-2 tasks, hints computed like the migrating task does, or NotBlocking), a controller (start_blocking, wait for blocking_done, hold, drop) and a replier; every schedule with <= 2 (thorough 3) preemptions is executed; oracle: no task reaches the backend sender between the moment blocking_done() was observed and the handle drop, every task is dispatched exactly once (backend, re-dispatch or answered), nothing stays queued, no deadlock/livelock.",
+                note="Waiting loops are modelled as blocking on precise events (so spinning does not unroll); only SeqCst interleavings at the hooked points are explored (orderings and point coverage are checked textually on every run; a pass is refused if coverage is incomplete). crossbeam_channel and DashMap internals are treated as atomic operations."),
 }
 
 NOT_YET = {
@@ -100,7 +104,7 @@ def main():
             "level_note": c["note"],
             "technique": c["technique"],
         })
-    used = sorted({c["engine"] for c in CHECKS.values()})
+    used = sorted({e for c in CHECKS.values() for e in c["engine"].split("+")})
     m = {
         "version": 1,
         "setup_cmd": "cd /verif/harness && CARGO_NET_OFFLINE=true cargo build --release --offline",
@@ -113,7 +117,7 @@ def main():
         },
         "engines": [
             {"name": e, "path": ENGINES[e][0], "kind_free_text": ENGINES[e][1],
-             "serves_properties": sorted(p for p, c in CHECKS.items() if c["engine"] == e)}
+             "serves_properties": sorted(p for p, c in CHECKS.items() if e in c["engine"].split("+"))}
             for e in used
         ],
         "checks": checks,
